@@ -55,6 +55,11 @@ def run_plan(plan, props, want_history=False):
         for prop in props:
             for fn in checks.oracles_for(prop, plan):
                 violations.extend(fn(an if an is not None else world))
+        if world.incomplete:
+            # the harness gave up on this run (iteration cap: a link that trickles a large payload in tiny chunks) and tore
+            # the connection down: what the application then sees is the harness's doing. Only the termination guard's
+            # verdict stands; such runs are counted (health.runs_stopped_at_iteration_cap) and fail the check above 2 %.
+            violations = [v for v in violations if v.cls.endswith('.nontermination')]
     finally:
         signal.alarm(0)
         signal.signal(signal.SIGALRM, old)
